@@ -135,6 +135,7 @@ type Sig struct {
 	Fired    bool
 	Trace    []Rec
 	Runaway  bool
+	MaxPolls int
 	AfterHit int // probe calls that happened after the signal was observed true
 	Limit    int // max probe calls after firing before the probe aborts the run (0 = 100)
 	// RaiseAtRec > 0: the host raises the flag while the RaiseAtRec-th probe call is executing (between two
@@ -166,6 +167,8 @@ var AbortSentinel = abortRun{}
 // polls is stopped and marked Runaway (the reference terminated long before).
 const RunawayPolls = 3_000_000
 
+// MaxPolls, when > 0, replaces RunawayPolls for this signal (cases that are long on purpose).
+
 func (s *Sig) ExitSignal() bool {
 	s.mu.Lock()
 	defer s.mu.Unlock()
@@ -176,7 +179,11 @@ func (s *Sig) ExitSignal() bool {
 	if s.Raised {
 		s.Fired = true
 	}
-	if s.FireAt <= 0 && !s.Raised && s.Polls > RunawayPolls {
+	lim := RunawayPolls
+	if s.MaxPolls > 0 {
+		lim = s.MaxPolls
+	}
+	if s.FireAt <= 0 && !s.Raised && s.Polls > lim {
 		s.Runaway = true
 		return true
 	}
@@ -306,7 +313,7 @@ const TraceKey runtimev2.TaskP = "verif-trace"
 type Trace2 struct {
 	mu    sync.Mutex
 	Trace []Rec
-	Sig   *Sig // optional: the signal of the run, so records know whether it had fired
+	Sig   *Sig  // optional: the signal of the run, so records know whether it had fired
 	Mode  int64 // what pmode() returns during this run
 }
 
